@@ -11,6 +11,14 @@ Rel4 == <<TRUE, TRUE, TRUE, TRUE>>
 Rel4b == <<TRUE, FALSE, TRUE, TRUE>>
 Blk4 == << <<2>>, <<4, 3>> >>
 Blk4b == << <<1, 4>>, <<2>> >>
+\* five transactions over three outpoints: 1 spends o1, 2 spends o2, 3 spends o2 and o3, 4 (in the block) spends o3 and evicts 3,
+\* 5 spends o1 and o2 (conflicts on two inputs with two different transactions)
+Ins5 == <<{1}, {2}, {2, 3}, {3}, {1, 2}>>
+Rel5 == <<TRUE, TRUE, TRUE, TRUE, TRUE>>
+Blk5 == << <<4>> >>
+SrcTT == {"TT"}
+Src5 == {"TT", "UT", "LOC", "TX", "UX"}
+SrcAll == {"TT", "UT", "LOC", "TX", "UX", "NU", "NX"}
 NoFix == {}
 CodeFix == {"reannounce", "staleproof", "neverboth"}     \* the repairs made in the code (fix: commits 11f1c4b, 2a4d66a, 9c74d8c)
 OldFix == {"reannounce"}
